@@ -1,9 +1,13 @@
-(* C14 -- CL03 blind issuance.  Proved: gating (blind_sign returns only if verify_proof returned true; otherwise the Rust
-   code panics = refusal), the unblinded signature's components, and completeness of the two-secret sigma protocol that
-   carries each hidden attribute and the commitment randomness, of the multi-secret protocol (proof_commited_msgs) for every
-   hidden set U, and of the two-commitment protocol (trusted-party commitment).  The Boudot range proofs inside the issuance
-   proof and rejection of mismatching / edited proofs: correspondence + sweep (all non-empty U for n <= 3 / 5). *)
-From ZK Require Import Cl ClArith ClSig ClMore.
+(* C14 -- CL03 blind issuance.  Proved end to end: (1) blind_issuance_valid -- for every attribute vector, every strictly
+   increasing list U of hidden positions and every logged randomness (random_bits values >= 0), whatever blind_sign returns
+   for the honest holder's commitment and the revealed attributes at the complementary positions unblinds to a signature
+   that verify_multiattr accepts on the WHOLE vector (honest_extension_commits_to_all: hidden product * revealed product =
+   product over all positions; blind_issue_complete: e-th root under the key premises good_key); (2) zkpok_complete /
+   honest_issuance_proof_accepted -- the whole issuance proof (trusted-party proof, multi-secret proof, per-attribute opening
+   and range proofs, opening and range proof of the randomness) that the holder generates is accepted, for every U;
+   (3) gating: blind_sign returns only if verify_proof returned true (otherwise the Rust code panics = refusal).
+   Rejection of mismatching / edited proofs: correspondence + sweep (all non-empty U for n <= 3 / 5). *)
+From ZK Require Import Cl ClArith ClSig ClMore ClGroup ClBoudot ModelLemmas ClSpok ClSpok2 ClSpok3 ClDraws ClZk.
 
 Theorem C14_cl_blind_sign_gated :
   forall CS BP pk sk bases zk revealed C Ct ck U ridx ds b ds',
@@ -26,14 +30,14 @@ Print Assumptions C14_unblind_sign_s.
 Theorem C14_nisp2sec_complete :
   forall CS m c g h n ds p ds',
   (0 < n)%Z -> (0 <= m)%Z -> (0 <= c_rand c)%Z -> c_value c = ((g ^ m * h ^ c_rand c) mod n)%Z ->
-  Forall (fun d => (0 <= d_val d)%Z) ds ->
+  Forall bits_ok ds ->
   nisp2sec_gen CS m c g h n ds = Ok (p, ds') ->
   nisp2sec_verify p c g h n = Ok true.
 Proof. exact nisp2sec_complete. Qed.
 Check (C14_nisp2sec_complete :
   forall CS m c g h n ds p ds',
   (0 < n)%Z -> (0 <= m)%Z -> (0 <= c_rand c)%Z -> c_value c = ((g ^ m * h ^ c_rand c) mod n)%Z ->
-  Forall (fun d => (0 <= d_val d)%Z) ds ->
+  Forall bits_ok ds ->
   nisp2sec_gen CS m c g h n ds = Ok (p, ds') ->
   nisp2sec_verify p c g h n = Ok true).
 Print Assumptions C14_nisp2sec_complete.
@@ -44,7 +48,7 @@ Theorem C14_nispm_complete :
   (0 < pk_N pk)%Z -> (length msgs <> 1)%nat -> (0 <= c_rand c)%Z ->
   (forall i, In i U -> (0 <= nth (N.to_nat i) msgs 1)%Z) ->
   c_value c = ((pprod bases (map (fun i => nth (N.to_nat i) msgs 1%Z) U) U * pk_b pk ^ c_rand c) mod pk_N pk)%Z ->
-  Forall (fun d => (0 <= d_val d)%Z) ds ->
+  Forall bits_ok ds ->
   nispm_gen CS msgs c pk bases (Some U) ds = Ok (p, ds') ->
   nispm_verify p c pk bases (Some U) = Ok true.
 Proof. exact nispm_complete. Qed.
@@ -53,7 +57,7 @@ Check (C14_nispm_complete :
   (0 < pk_N pk)%Z -> (length msgs <> 1)%nat -> (0 <= c_rand c)%Z ->
   (forall i, In i U -> (0 <= nth (N.to_nat i) msgs 1)%Z) ->
   c_value c = ((pprod bases (map (fun i => nth (N.to_nat i) msgs 1%Z) U) U * pk_b pk ^ c_rand c) mod pk_N pk)%Z ->
-  Forall (fun d => (0 <= d_val d)%Z) ds ->
+  Forall bits_ok ds ->
   nispm_gen CS msgs c pk bases (Some U) ds = Ok (p, ds') ->
   nispm_verify p c pk bases (Some U) = Ok true).
 Print Assumptions C14_nispm_complete.
@@ -65,7 +69,7 @@ Theorem C14_nisp2_complete :
   (forall j, In j U -> (0 <= nth (N.to_nat j) msgs 1)%Z) ->
   (c_value c1 mod pk_N pk = (pprod bases (map (fun j => nth (N.to_nat j) msgs 1%Z) U) U * pk_b pk ^ c_rand c1) mod pk_N pk)%Z ->
   (c_value c2 mod ck_N ck = (pprod (ck_g ck) (map (fun j => nth (N.to_nat j) msgs 1%Z) U) U * ck_h ck ^ c_rand c2) mod ck_N ck)%Z ->
-  Forall (fun d => (0 <= d_val d)%Z) ds ->
+  Forall bits_ok ds ->
   nisp2_gen CS msgs c1 c2 pk bases ck U ds = Ok (p, ds') ->
   invert (c_value c1) (pk_N pk) <> None -> invert (c_value c2) (ck_N ck) <> None ->
   nisp2_verify p c1 c2 pk bases ck U = Ok true.
@@ -76,8 +80,110 @@ Check (C14_nisp2_complete :
   (forall j, In j U -> (0 <= nth (N.to_nat j) msgs 1)%Z) ->
   (c_value c1 mod pk_N pk = (pprod bases (map (fun j => nth (N.to_nat j) msgs 1%Z) U) U * pk_b pk ^ c_rand c1) mod pk_N pk)%Z ->
   (c_value c2 mod ck_N ck = (pprod (ck_g ck) (map (fun j => nth (N.to_nat j) msgs 1%Z) U) U * ck_h ck ^ c_rand c2) mod ck_N ck)%Z ->
-  Forall (fun d => (0 <= d_val d)%Z) ds ->
+  Forall bits_ok ds ->
   nisp2_gen CS msgs c1 c2 pk bases ck U ds = Ok (p, ds') ->
   invert (c_value c1) (pk_N pk) <> None -> invert (c_value c2) (ck_N ck) <> None ->
   nisp2_verify p c1 c2 pk bases ck U = Ok true).
 Print Assumptions C14_nisp2_complete.
+
+(* the whole issuance proof verifies (every U; trusted-party part under the premises of nisp2_complete) *)
+Theorem C14_zkpok_complete :
+  forall CS BP msgs C Ct pk bases ck U ds p ds',
+  (0 <= b_t BP)%Z -> (0 < pk_N pk)%Z ->
+  Forall (unit (pk_N pk)) bases -> unit (pk_N pk) (pk_b pk) ->
+  (length msgs <> 1)%nat -> (0 <= c_rand C)%Z ->
+  (forall i, In i U -> (0 <= nth (N.to_nat i) msgs 1)%Z) ->
+  c_value C = ((pprod bases (map (fun i => nth (N.to_nat i) msgs 1%Z) U) U * pk_b pk ^ c_rand C) mod pk_N pk)%Z ->
+  trusted_ok msgs C Ct pk ck U ->
+  Forall bits_ok ds ->
+  zkpok_gen CS BP msgs C Ct pk bases ck U ds = Ok (p, ds') ->
+  zkpok_verify CS BP p C Ct pk bases ck U = Ok true.
+Proof. exact zkpok_complete. Qed.
+Check (C14_zkpok_complete :
+  forall CS BP msgs C Ct pk bases ck U ds p ds',
+  (0 <= b_t BP)%Z -> (0 < pk_N pk)%Z ->
+  Forall (unit (pk_N pk)) bases -> unit (pk_N pk) (pk_b pk) ->
+  (length msgs <> 1)%nat -> (0 <= c_rand C)%Z ->
+  (forall i, In i U -> (0 <= nth (N.to_nat i) msgs 1)%Z) ->
+  c_value C = ((pprod bases (map (fun i => nth (N.to_nat i) msgs 1%Z) U) U * pk_b pk ^ c_rand C) mod pk_N pk)%Z ->
+  trusted_ok msgs C Ct pk ck U ->
+  Forall bits_ok ds ->
+  zkpok_gen CS BP msgs C Ct pk bases ck U ds = Ok (p, ds') ->
+  zkpok_verify CS BP p C Ct pk bases ck U = Ok true).
+Print Assumptions C14_zkpok_complete.
+
+(* holder's commitment, then holder's proof: accepted by the issuer *)
+Theorem C14_honest_issuance_proof_accepted :
+  forall CS BP pk bases msgs U ds C d1 p ds',
+  (0 <= b_t BP)%Z -> (0 < pk_N pk)%Z ->
+  Forall (unit (pk_N pk)) bases -> unit (pk_N pk) (pk_b pk) ->
+  (length msgs <> 1)%nat -> (length msgs <= length bases)%nat -> Forall (fun m => (0 <= m)%Z) msgs ->
+  Forall (fun j => (N.to_nat j < length msgs)%nat) U ->
+  Forall bits_ok ds ->
+  commit_with_pk CS msgs pk bases (Some U) ds = Ok (C, d1) ->
+  zkpok_gen CS BP msgs C None pk bases None U d1 = Ok (p, ds') ->
+  zkpok_verify CS BP p C None pk bases None U = Ok true.
+Proof. exact honest_issuance_proof_accepted. Qed.
+Check (C14_honest_issuance_proof_accepted :
+  forall CS BP pk bases msgs U ds C d1 p ds',
+  (0 <= b_t BP)%Z -> (0 < pk_N pk)%Z ->
+  Forall (unit (pk_N pk)) bases -> unit (pk_N pk) (pk_b pk) ->
+  (length msgs <> 1)%nat -> (length msgs <= length bases)%nat -> Forall (fun m => (0 <= m)%Z) msgs ->
+  Forall (fun j => (N.to_nat j < length msgs)%nat) U ->
+  Forall bits_ok ds ->
+  commit_with_pk CS msgs pk bases (Some U) ds = Ok (C, d1) ->
+  zkpok_gen CS BP msgs C None pk bases None U d1 = Ok (p, ds') ->
+  zkpok_verify CS BP p C None pk bases None U = Ok true).
+Print Assumptions C14_honest_issuance_proof_accepted.
+
+(* hidden product * revealed product = product over all positions, for every U *)
+Theorem C14_honest_extension_commits_to_all :
+  forall CS pk bases msgs U ds C ds',
+  (0 < pk_N pk)%Z -> (length msgs <= length bases)%nat -> Forall (fun m => (0 <= m)%Z) msgs ->
+  strictly_sorted U -> Forall (fun j => (N.to_nat j < length msgs)%nat) U ->
+  Forall bits_ok ds ->
+  commit_with_pk CS msgs pk bases (Some U) ds = Ok (C, ds') ->
+  (0 <= c_rand C)%Z /\
+  exists ext, extend_commitment_with_pk C (map (at_ msgs) (revealed_of U 0 (length msgs))) pk bases
+                (Some (revealed_of U 0 (length msgs))) = Ok ext /\
+    (0 <= c_value ext)%Z /\ c_rand ext = c_rand C /\
+    (c_value ext mod pk_N pk = (PP bases msgs * pk_b pk ^ c_rand C) mod pk_N pk)%Z.
+Proof. exact honest_extension_commits_to_all. Qed.
+Check (C14_honest_extension_commits_to_all :
+  forall CS pk bases msgs U ds C ds',
+  (0 < pk_N pk)%Z -> (length msgs <= length bases)%nat -> Forall (fun m => (0 <= m)%Z) msgs ->
+  strictly_sorted U -> Forall (fun j => (N.to_nat j < length msgs)%nat) U ->
+  Forall bits_ok ds ->
+  commit_with_pk CS msgs pk bases (Some U) ds = Ok (C, ds') ->
+  (0 <= c_rand C)%Z /\
+  exists ext, extend_commitment_with_pk C (map (at_ msgs) (revealed_of U 0 (length msgs))) pk bases
+                (Some (revealed_of U 0 (length msgs))) = Ok ext /\
+    (0 <= c_value ext)%Z /\ c_rand ext = c_rand C /\
+    (c_value ext mod pk_N pk = (PP bases msgs * pk_b pk ^ c_rand C) mod pk_N pk)%Z).
+Print Assumptions C14_honest_extension_commits_to_all.
+
+(* end to end: the unblinded signature verifies on the whole attribute vector *)
+Theorem C14_blind_issuance_valid :
+  forall CS BP pk sk bases msgs U ds0 C ds0' zk Ct ck ds b ds',
+  good_key pk sk ->
+  Forall (fun a => Z.gcd a (pk_N pk) = 1%Z) bases ->
+  forallb (msg_in_range CS) msgs = true -> (length msgs <= length bases)%nat ->
+  strictly_sorted U -> Forall (fun j => (N.to_nat j < length msgs)%nat) U ->
+  Forall bits_ok ds0 -> commit_with_pk CS msgs pk bases (Some U) ds0 = Ok (C, ds0') ->
+  Forall bits_ok ds ->
+  blind_sign CS BP pk sk bases zk (Some (map (at_ msgs) (revealed_of U 0 (length msgs)))) C Ct ck U
+             (Some (revealed_of U 0 (length msgs))) ds = Ok (b, ds') ->
+  verify_multiattr CS (unblind_sign b C) pk bases msgs = Ok true.
+Proof. exact blind_issuance_valid. Qed.
+Check (C14_blind_issuance_valid :
+  forall CS BP pk sk bases msgs U ds0 C ds0' zk Ct ck ds b ds',
+  good_key pk sk ->
+  Forall (fun a => Z.gcd a (pk_N pk) = 1%Z) bases ->
+  forallb (msg_in_range CS) msgs = true -> (length msgs <= length bases)%nat ->
+  strictly_sorted U -> Forall (fun j => (N.to_nat j < length msgs)%nat) U ->
+  Forall bits_ok ds0 -> commit_with_pk CS msgs pk bases (Some U) ds0 = Ok (C, ds0') ->
+  Forall bits_ok ds ->
+  blind_sign CS BP pk sk bases zk (Some (map (at_ msgs) (revealed_of U 0 (length msgs)))) C Ct ck U
+             (Some (revealed_of U 0 (length msgs))) ds = Ok (b, ds') ->
+  verify_multiattr CS (unblind_sign b C) pk bases msgs = Ok true).
+Print Assumptions C14_blind_issuance_valid.
